@@ -3693,7 +3693,8 @@ class FuncS(ValueFunc):
         s = args.getString("str").value
         start = args.getInt("start", 0).value
         if start < 0:
-            start = len(s) + start
+            # counted from the end, at most back to the beginning
+            start = max(0, len(s) + start)
         while True:
             idx1 = s.find("{", start)
             if idx1 == -1:
